@@ -24,7 +24,8 @@ for n, s in a.items():
         print("MISSING", n); bad += 1
     elif b[n] != s:
         print("CHANGED", n); print("  want:", s[:300]); print("  have:", b[n][:300]); bad += 1
-if re.search(r"\bsorry\b", re.sub(r"--.*", "", bsrc)):
+nocomment = re.sub(r"/-.*?-/", "", bsrc, flags=re.S)
+if re.search(r"\bsorry\b", re.sub(r"--.*", "", nocomment)):
     print("contains sorry"); bad += 1
 print("ok" if not bad else f"{bad} problem(s)", len(a), "statements")
 sys.exit(1 if bad else 0)
